@@ -32,7 +32,7 @@ def run(tier, seed, replay=None):
         # always_report_rejected: the model admits the failing histories of the two known defects, so a
         # history it does NOT admit is news even in a scenario where those monitors fire
         AtomicPart("cancellable", SCN, LIB, "cancellable", CANCELLABLE, always_report_rejected=True),
-        AtomicPart("cancellable_after_start", SCN, LIB, "cancellableafter", AFTER),
+        AtomicPart("cancellable_after_start", SCN, LIB, "cancellableafter", AFTER, quick=dict(preemptions=2, max_execs=5000)),
         AtomicPart("detach_on_cancel", SCN, LIB, "detachoncancel", DETACH),
         AtomicPart("canary", SCN, LIB, "canary", CANARY, quick=dict(preemptions=3, max_execs=4000)),
         AtomicPart("stop_on_request", SCN, LIB, "stoponrequest", SOR),
